@@ -185,7 +185,7 @@ def _run_shard(args):
     while rest:
         try:
             p = subprocess.run(cmd, input="\n".join(rest) + "\n", capture_output=True, text=True, env=ENV,
-                               timeout=120 + 0.2 * len(rest))
+                               timeout=200 + 0.2 * len(rest))
             out = p.stdout.split("\n")
             rc = p.returncode
         except subprocess.TimeoutExpired as e:
@@ -216,7 +216,21 @@ def run_lines(binary, mode, cases, shards=NCPU):
     parts = [cases[i:i + size] for i in range(0, len(cases), size)]
     with cf.ThreadPoolExecutor(max_workers=n) as ex:
         outs = list(ex.map(_run_shard, [(binary, mode, p) for p in parts]))
-    return [o for part in outs for o in part]
+    res = [o for part in outs for o in part]
+    # a request that ran into the per-request limit of the harness is asked once more, alone and with a limit twelve times as
+    # long, before it counts as "does not return": on a loaded machine a heavy request (a large bundled map under an oracle that
+    # re-decodes it hundreds of times) can exceed the default limit without hanging (seen once in a seed sweep run next to a
+    # mutation campaign, DESIGN 6.2). A request that carries its own `limit=` (finding F23) is not asked again.
+    if mode is not None:
+        again = [i for i, (c, o) in enumerate(zip(cases, res)) if o.startswith("TIMEOUT") and not c.startswith("limit=")]
+        if again:
+            base = int(os.environ.get("VERIF_CASE_TIMEOUT", "10"))
+            with cf.ThreadPoolExecutor(max_workers=min(4, len(again))) as ex:
+                redo = list(ex.map(_run_shard, [(binary, mode, [f"limit={12 * base} " + cases[i]]) for i in again[:16]]))
+            for i, r in zip(again[:16], redo):
+                if r and not r[0].startswith("TIMEOUT"):
+                    res[i] = r[0]
+    return res
 
 
 def run_impl(cases):
